@@ -12,14 +12,20 @@ import (
 	"github.com/samaritan-proxy/samaritan/verifrt/sched"
 )
 
-type (
-	Rand   = rand.Rand
-	Source = rand.Source
-)
+type Source = rand.Source
 
-func New(src Source) *Rand        { return rand.New(src) }
+// Rand mirrors *rand.Rand; its draws are choices of the explorer as well.
+type Rand struct{ r *rand.Rand }
+
+func New(src Source) *Rand        { return &Rand{r: rand.New(src)} }
 func NewSource(seed int64) Source { return rand.NewSource(seed) }
-func Seed(seed int64)             {}
+
+func (r *Rand) Float64() float64 { return Float64() }
+func (r *Rand) Intn(n int) int   { return Intn(n) }
+func (r *Rand) Int() int         { return Int() }
+func (r *Rand) Int63() int64     { return Int63() }
+func (r *Rand) Seed(seed int64)  {}
+func Seed(seed int64)            {}
 
 func cls() sched.Class {
 	if e := sched.E; e != nil {
@@ -67,16 +73,21 @@ func Int63() int64         { return int64(Int()) }
 func Int31n(n int32) int32 { return int32(Intn(int(n))) }
 func Int63n(n int64) int64 { return int64(Intn(int(n))) }
 
-// Float64 returns 0.5 by default; 0 and just below 1 are the deviations.
+// FreeFloat64, when set, decides Float64 outside a controlled execution.
+var FreeFloat64 func() float64
+
+// Float64 returns 0.5 by default; 0 (the smallest draw) is the deviation. For
+// comparisons of the form r < p these two cover both outcomes for every p
+// except p <= 0.5 < ... which 0 covers and p > 0.5 which both satisfy.
 func Float64() float64 {
 	if sched.E == nil {
+		if FreeFloat64 != nil {
+			return FreeFloat64()
+		}
 		return rand.Float64()
 	}
-	switch sched.Choose(cls(), 3, "rand.Float64") {
-	case 1:
+	if sched.Choose(cls(), 2, "rand.Float64") == 1 {
 		return 0
-	case 2:
-		return 0.999999
 	}
 	return 0.5
 }
